@@ -236,9 +236,9 @@ fn main() {
             jstr(v.prop), jstr(&v.msg), jstr(v.entry), jstr(&v.context), jstr(&v.line)).unwrap();
     }
     let m = |b: &std::collections::BTreeMap<String, u64>| serde_json::to_string(b).unwrap();
-    writeln!(out, "SUMMARY {{\"vectors\":{},\"nontrivial\":{},\"observations\":{},\"by_kind_verdict\":{},\"by_phase\":{},\"by_err\":{},\"tags\":{},\"drift\":{},\"drift_samples\":{},\"max_len\":{},\"completions_run\":{},\"extensions_run\":{},\"cfg_expansions\":{},\"entry_expansions\":{},\"placements\":{},\"embed_run\":{},\"caplaw_run\":{},\"samples\":{},\"unparsed_lines\":{},\"other_lines\":{},\"backend\":{},\"provider\":{},\"debug_assertions\":{}}}",
+    writeln!(out, "SUMMARY {{\"vectors\":{},\"nontrivial\":{},\"observations\":{},\"by_kind_verdict\":{},\"by_phase\":{},\"by_err\":{},\"tags\":{},\"drift\":{},\"drift_samples\":{},\"max_len\":{},\"completions_run\":{},\"extensions_run\":{},\"cfg_expansions\":{},\"entry_expansions\":{},\"placements\":{},\"embed_run\":{},\"caplaw_run\":{},\"samples\":{},\"unparsed_lines\":{},\"other_lines\":{},\"backend\":{},\"provider\":{},\"debug_assertions\":{},\"mismatch_digest\":\"{:016x}\"}}",
         total.vectors, total.nontrivial, total.observations, m(&total.by_kind_verdict), m(&total.by_phase), m(&total.by_err), m(&total.tags),
         total.drift, serde_json::to_string(&total.drift_samples).unwrap(), total.max_len, total.completions_run, total.extensions_run,
         total.cfg_expansions, total.entry_expansions, total.placements, total.embed_run, total.caplaw_run,
-        serde_json::to_string(&total.samples).unwrap(), bad, other_lines, jstr(&backend_note), jstr(httparse::verif::provider()), cfg!(debug_assertions)).unwrap();
+        serde_json::to_string(&total.samples).unwrap(), bad, other_lines, jstr(&backend_note), jstr(httparse::verif::provider()), cfg!(debug_assertions), total.mismatch_digest).unwrap();
 }
